@@ -66,6 +66,12 @@ HOSTILE = [
     # bodies that start with a constant which is not a docstring (stubs, protocol members)
     "def f(): ...  # c0\nclass P:  # c1\n    x: int  # c2\n    def m(self): ...  # c3\ndef g():  # c4\n    1  # c5\n    return 2  # c6\ndef h():  # c7\n    b'x'  # c8",
 ]
+HOSTILE += [
+    # multi-line operand chains and undelimited sequences (every operand / element with its own line comment, one with a leading one)
+    "x = (a and  # c0\n     b and  # c1\n     # c2\n     c)  # c3\ny = (p <  # c4\n     q <=  # c5\n     r)  # c6",
+    "d[a,  # c0\n  b,  # c1\n  # c2\n  c]  # c3\nt = (k,  # c4\n     l)  # c5",
+    "match s:  # c0\n    case (a |  # c1\n          b |  # c2\n          c):  # c3\n        pass\n    case [p,  # c4\n          q]:  # c5\n        pass",
+]
 for _p in HOSTILE:
     ast.parse(_p)
 PROGS = COMMENTED + [PROGRAMS[i] for i in (11, 20, 21, 22, 23, 24, 25, 26, 27, 28, 37, 38)] + HOSTILE
@@ -492,7 +498,23 @@ def classify_loss(src, tree, op, lost):
                         where.setdefault(t.string, []).append(t.start[0])
                 out['zero_len_exprseq_insert'] = True
                 out['lost_only_in_insertion_gap'] = all(any(lo <= ln <= hi for ln in where.get(c, [])) for c in lost)
-        elif k == 'replace' and path and path[-1][0] == 'orelse':
+        if k in ('remove', 'cut', 'put_slice', 'cut_slice', 'delitem'):  # deletion of operands of an operator chain / of the leading elements of an undelimited sequence
+            if k in ('remove', 'cut'):
+                par, (fld, i) = O.get_path(tree, path[:-1]), path[-1]
+                j = None if i is None else i + 1
+            elif k == 'delitem':
+                par, fld, i = O.get_path(tree, path), op['field'], op['idx']
+                j = i + 1
+            else:
+                par, fld, i, j = O.get_path(tree, path), op['field'], op['start'], op['stop']
+            deleting = k != 'put_slice' or (op.get('code') or [None])[0] is None
+            if deleting and isinstance(i, int) and j is not None and j > i:
+                if isinstance(par, (ast.BoolOp, ast.Compare)) and par.end_lineno > par.lineno:
+                    out['opchain_operand_delete'] = True
+                if isinstance(par, (ast.Tuple, ast.MatchSequence)) and i == 0 and fld in ('elts', 'patterns') and \
+                        src.split('\n')[par.lineno - 1][O.byte2char(src.split('\n')[par.lineno - 1], par.col_offset)] not in '([':
+                    out['undelimited_seq_head_delete'] = True
+        if k == 'replace' and path and path[-1][0] == 'orelse':
             par = O.get_path(tree, path[:-1])
             code0 = (op.get('code') or [None])[0]
             if isinstance(par, ast.If) and len(par.orelse) == 1 and (op.get('opts') or {}).get('elif_', True) and \
